@@ -13,7 +13,8 @@ LEVEL = "fault_enumeration"
 TECHNIQUE = "bounded-exhaustive enumeration of scripted fetch-command outcome sequences + independent hashing oracle"
 RULE = ("scenario = (target kind: size+sha256+blake2b+sha512 | size only | no checksums | sha256 without size; attempts n; "
         "number of URIs u; file present before the call: absent/partial/same-size-corrupt/oversized/correct/empty; separate "
-        "resume command or not; outcome sequence of length min(n,u)). The real pkgcore.fetch.custom.fetcher.fetch() runs a "
+        "resume command or not; size of the intended file: 48 random bytes | ZERO-LENGTH (the verified file is the empty file) | one "
+        "byte | 48 bytes with a partial prefix exactly one byte short; outcome sequence of length min(n,u)). The real pkgcore.fetch.custom.fetcher.fetch() runs a "
         "generated bash script as FETCHCOMMAND/RESUMECOMMAND that plays the next scripted outcome {write nothing, empty file, "
         "partial prefix, oversized, same-size corrupt, correct, complete-the-partial-on-resume} x exit status {0,1} and logs "
         "(invocation number, command kind, URI, file before, file after). ALL sequences over the 14-outcome alphabet are "
@@ -45,7 +46,8 @@ ASSUMPTIONS = [
 SHARDS = {"quick": 4, "thorough": 16}
 TIMEOUT = {"quick": 300, "thorough": 2400}   # the sandbox is shared; normal wall is far below
 MIN_EVALS = 150
-REQUIRED_COUNTERS = ("fetch_calls", "script_invocations", "spawn:real", "returned_path", "raised", "resume_judged", "kind:resume", "kind:fetch")
+REQUIRED_COUNTERS = ("fetch_calls", "script_invocations", "spawn:real", "zero_length_file_delivered_by_attempt",
+                     "zero_length_file_preexisting", "returned_path", "raised", "resume_judged", "kind:resume", "kind:fetch")
 
 # own wall budget per shard: stay near 1 / 15 minutes even when every bash start costs 0.3 s on a loaded host
 # (normal cost of the whole enumeration: quick ~15 s, thorough ~2 min per shard); what was not run is reported
@@ -191,6 +193,11 @@ def evaluate(ctx, h, cfg, seq, origin="enumeration", real_spawn=None):
     ctx.count("script_invocations", k)
     ctx.count("invocations=%d" % k)
     ctx.count("T:" + cfg["T"])
+    ctx.count("content:%s(%d bytes)" % (cfg.get("content", "rand"), len(h.good)))
+    if not h.good and facts.get("ok_after"):
+        ctx.count("zero_length_file_delivered_by_attempt")
+    if not h.good and cfg["pre"] in ("correct", "empty", "partial"):
+        ctx.count("zero_length_file_preexisting")
     ctx.count("pre:" + cfg["pre"])
     ctx.count("returned_path" if "path" in result else "raised" if "exc" in result else "returned_other")
     if "exc" in result:
@@ -209,11 +216,12 @@ def evaluate(ctx, h, cfg, seq, origin="enumeration", real_spawn=None):
     if h.others_in_distdir():
         ctx.count("stray_files_in_distdir")
     if k and any(s != "missing" for s in facts["states"][1:]):
-        ctx.nontrivial((cfg["T"], cfg["attempts"], cfg["uris"], cfg["pre"], cfg["resume_distinct"], seq[:k]))
+        ctx.nontrivial((cfg["T"], cfg["attempts"], cfg["uris"], cfg["pre"], cfg["resume_distinct"], cfg.get("content", "rand"),
+                        seq[:k]))
     wit = None
     if viol or ctx.want_sample():
         wit = {"T": cfg["T"], "attempts": cfg["attempts"], "uris": cfg["uris"], "pre": cfg["pre"],
-               "resume_distinct": cfg["resume_distinct"], "seq": [list(x) for x in seq],
+               "resume_distinct": cfg["resume_distinct"], "seq": [list(x) for x in seq], "content": cfg.get("content", "rand"),
                "good": h.good, "bad": h.bad, "over": h.over, "cut": h.cut,
                "expected": exp, "result": result, "final": _txt(final), "final_state": ref.classify_state(final, exp),
                "states": facts["states"],
@@ -233,14 +241,20 @@ def evaluate(ctx, h, cfg, seq, origin="enumeration", real_spawn=None):
     return k
 
 
-def _harness(ctx_rng, tag):
-    root = pjoin(os.environ.get("VT_SCRATCH") or "/var/tmp", "c36-%s-%d" % (tag, os.getpid()))
-    return Harness(root, *gen.contents(ctx_rng))
+def _harnesses(ctx_rng, tag):
+    """One harness (scratch distdir + generated script) per content variant."""
+    out = {}
+    for name in gen.CONTENTS:
+        root = pjoin(os.environ.get("VT_SCRATCH") or "/var/tmp", "c36-%s-%s-%d" % (tag, name, os.getpid()))
+        out[name] = Harness(root, *gen.contents_variant(ctx_rng, name))
+    return out
 
 
 def run(ctx):
-    h = _harness(ctx.rng, "run")
-    h.calibrate(ctx)
+    hs = _harnesses(ctx.rng, "run")
+    hs["rand"].calibrate(ctx)
+    for x in hs.values():
+        x.real_spawn_default = hs["rand"].real_spawn_default
     cfgs = gen.configs(ctx.tier)
     units = gen.units(cfgs)
     ctx.count("configurations", len(cfgs) if ctx.shard == 0 else 0)
@@ -257,6 +271,7 @@ def run(ctx):
         if ui % ctx.nshards != ctx.shard:
             continue
         cfg = cfgs[ci]
+        h = hs[cfg.get("content", "rand")]
         L = gen.seq_len(cfg)
         if late(20):
             stopped = True
@@ -264,7 +279,8 @@ def run(ctx):
             continue
         complete = True
         real = True if (cfg["attempts"] == 1 and cfg["T"] == "full" and cfg["stratum"].startswith("A:")) else None
-        it = gen.walk(first, L, lambda s: evaluate(ctx, h, cfg, [gen.ALPHABET[x] for x in s], real_spawn=real))
+        it = gen.walk(first, L, lambda s, h=h, cfg=cfg, real=real: evaluate(ctx, h, cfg, [gen.ALPHABET[x] for x in s],
+                                                                             real_spawn=real))
         for _seq, _k, covered in it:
             ctx.count("sequences_covered", covered)
             ctx.count("covered:" + cfg["stratum"], covered)
@@ -282,8 +298,8 @@ def run(ctx):
         for n in (3, 4):
             for seq in gen.sample_sequences(rng, n, ctx.budget(25, 0)):
                 cfg = {"T": rng.choice(gen.TARGETS), "attempts": n, "uris": n, "pre": rng.choice(gen.PRES),
-                       "resume_distinct": rng.random() < 0.8, "stratum": "S:sample"}
-                evaluate(ctx, h, cfg, [gen.ALPHABET[x] for x in seq], origin="sample")
+                       "resume_distinct": rng.random() < 0.8, "stratum": "S:sample", "content": rng.choice(gen.CONTENTS)}
+                evaluate(ctx, hs[cfg["content"]], cfg, [gen.ALPHABET[x] for x in seq], origin="sample")
                 ctx.count("sampled_long_sequences")
                 if ctx.out_of_time(10):
                     break
@@ -292,6 +308,12 @@ def run(ctx):
 
 
 def classify(w):
+    # a target that lists hashes but no size: _verify() has no size to compare and calls every zero-length file
+    # "empty" (non-resumable), so the zero-length file that matches every listed hash is deleted and re-fetched
+    exp = w.get("expected") or {}
+    if (w.get("kind") == "verified-file-not-returned" and exp.get("size") is None and exp.get("sums")
+            and w.get("good") == "" and "exc" in w.get("result", {}) and not w["result"].get("unexpected_exc")):
+        return "empty-file-rejected-when-target-has-hashes-but-no-size"
     # the verifying file was produced by the last allowed attempt, which fetch() never looks at
     if (w.get("kind") == "verified-file-not-returned" and "exc" in w.get("result", {})
             and not w["result"].get("unexpected_exc")
@@ -310,5 +332,5 @@ def replay(ctx, w):
     root = pjoin(os.environ.get("VT_SCRATCH") or "/var/tmp", "c36-replay-%d" % os.getpid())
     h = Harness(root, *c)
     cfg = {"T": w["T"], "attempts": int(w["attempts"]), "uris": int(w["uris"]), "pre": w.get("pre", "absent"),
-           "resume_distinct": bool(w.get("resume_distinct", True)), "stratum": "replay"}
+           "resume_distinct": bool(w.get("resume_distinct", True)), "stratum": "replay", "content": w.get("content", "rand")}
     evaluate(ctx, h, cfg, [(a, int(rc)) for a, rc in w["seq"]], origin="replay", real_spawn=True)
